@@ -488,7 +488,8 @@ def verifyLockTime (txLockTime threshold lockTime : Nat) : R Unit :=
 
 /-- `x & (SequenceLockTimeIsSeconds | SequenceLockTimeMask)` -/
 def seqMasked (x : Nat) : Nat :=
-  x % 2 ^ 32 + (x / Gen.Vm.sequenceLockTimeIsSeconds % 2) * Gen.Vm.sequenceLockTimeIsSeconds
+  -- (the constant is the LEFT factor: the kernel unfolds `Nat.mul` along its right argument)
+  x % (Gen.Vm.sequenceLockTimeMask + 1) + Gen.Vm.sequenceLockTimeIsSeconds * (x / Gen.Vm.sequenceLockTimeIsSeconds % 2)
 
 /-- opcodeCheckSequenceVerify (the operand stays on the stack) -/
 def opCSV {P : Prims} (ctx : Ctx P) (st : St) : R St := do
